@@ -67,7 +67,7 @@ func runC16(r *rt.Run, tier string) {
 	fault := "none"
 	mustFail := signerIdx == 2
 	either := false // corruption of the signature member itself: only soundness is demanded
-	var eioMember *arMember
+	var eioMember, decoyHdrEIO *arMember
 	tornBy := 0
 	if signerIdx == 2 {
 		fault = "outsider-signature"
@@ -81,10 +81,12 @@ func runC16(r *rt.Run, tier string) {
 		}
 		decoyNames := []string{"control.tar", "control.tar.gz", "control.tar.zst", "data.tar", "data.tar.gz", "control.sig", "control.md5", "control.", "data.img", "data.cpio.gz"}
 		nDecoy := len(decoyNames) * 2
-		const nAppend, nEIO, nTorn = 3, 2, 2
-		total := nBytes + nDecoy + 2 + 2 + nAppend + nEIO + nTorn
+		const nAppend, nEIO, nTorn, nOmit = 3, 2, 2, 2
+		total := nBytes + nDecoy + 2 + 2 + nAppend + nEIO + nTorn + nOmit
 		fp := faultIndex(r, total, func() int {
-			switch t.Weighted([]int{5, 3, 1, 1, 1, 3, 1}, "fault.kind") {
+			switch t.Weighted([]int{5, 3, 1, 1, 1, 3, 1, 1}, "fault.kind") {
+			case 7:
+				return nBytes + nDecoy + 4 + nAppend + nEIO + nTorn + t.Draw(nOmit, "fault.omit")
 			case 4:
 				return nBytes + nDecoy + 4 + t.Draw(nAppend, "fault.append")
 			case 5:
@@ -190,6 +192,13 @@ func runC16(r *rt.Run, tier string) {
 			}
 			fault = "decoy/" + name
 			r.Fault("stored.decoy-member")
+			if t.Bool(1, 3, "fault.decoy-header-eio") {
+				// ... and the disk fails (for good, or once) exactly where the decoy's
+				// header starts: an error there is not the end of the archive
+				decoyHdrEIO = dm
+				fault += "+header-read-fails"
+				r.Probe("decoy-whose-header-read-fails")
+			}
 		case fp < nBytes+nDecoy+2:
 			others := []string{}
 			for _, ro := range c16Roles {
@@ -216,6 +225,24 @@ func runC16(r *rt.Run, tier string) {
 			}
 			fault = "bytes-appended/" + map[*arMember]string{p.BinMember: "debian-binary", p.CtlMember: "control", p.DataMember: "data"}[m]
 			r.Fault("stored.bytes-appended")
+		case fp >= nBytes+nDecoy+4+nAppend+nEIO+nTorn:
+			// a signature that does not cover all three members (made over control
+			// and data only, or over debian-binary and control only): not a debsig
+			// signature of this package
+			which := fp - (nBytes + nDecoy + 4 + nAppend + nEIO + nTorn)
+			part := append(append([]byte{}, p.CtlMember.Data...), p.DataMember.Data...)
+			if which == 1 {
+				part = append(append([]byte{}, p.BinMember.Data...), p.CtlMember.Data...)
+			}
+			for i, x := range ms {
+				if x == sigM {
+					c := *sigM
+					c.Data = detachSign(signer, part)
+					ms[i] = &c
+				}
+			}
+			fault = []string{"signature-omits-debian-binary", "signature-omits-data"}[which]
+			r.Fault("stored.signature-over-fewer-members")
 		case fp >= nBytes+nDecoy+4+nAppend+nEIO:
 			// a decoy control.*/data.* member appended as the LAST member of a torn
 			// file: the image ends inside the decoy's content
@@ -338,10 +365,24 @@ func runC16(r *rt.Run, tier string) {
 			}
 		}
 	}
+	decoyHdrOff := -1
+	if decoyHdrEIO != nil {
+		ims := cloneMembers(ms)
+		renderAr(ims)
+		for i, x := range ms {
+			if x == decoyHdrEIO {
+				decoyHdrOff = ims[i].HdrOff
+			}
+		}
+	}
 	newDisk := func() *simdisk.Disk {
 		disk := simdisk.New(r, "deb", img)
 		disk.DrawProfile()
 		disk.MaxCalls = 4*len(img) + 8000
+		if decoyHdrOff >= 0 {
+			disk.FailRange(decoyHdrOff, decoyHdrOff+1+t.Draw(60, "fault.decoyhdrlen"))
+			disk.RangeOnce = t.Bool(1, 2, "fault.decoyhdronce")
+		}
 		if eioLo >= 0 {
 			switch t.Draw(3, "fault.eiotransient") {
 			case 0:
@@ -446,12 +487,64 @@ func runC16(r *rt.Run, tier string) {
 	if accepted > 0 {
 		r.Probe("verification-succeeded")
 	}
+	// one loaded package, several callers checking it at the same time (interleaved
+	// at every disk read): each gets the answer a lone caller gets
+	if eioLo < 0 && decoyHdrOff < 0 && t.Bool(1, 3, "c16.shared-deb") {
+		var d *deb.Deb
+		var lerr error
+		disk := simdisk.New(r, "shared", img)
+		disk.MaxCalls = 8*len(img) + 16000
+		if tk := r.Solo("loader", func() { d, lerr = deb.Load(disk, "signed.deb") }); taskTrouble(r, "C16", fault+"/shared", tk) {
+			return
+		}
+		if lerr != nil || d == nil {
+			return
+		}
+		type ans struct {
+			ok     bool
+			signer *openpgp.Entity
+		}
+		var lone ans
+		if tk := r.Solo("lone-checker", func() {
+			s, err := d.CheckDebsig(keyring, askRole)
+			lone = ans{err == nil, s}
+		}); taskTrouble(r, "C16", fault+"/shared", tk) {
+			return
+		}
+		k := 2 + t.Draw(2, "c16.shared-n")
+		res := make([]ans, k)
+		tasks := make([]*rt.Task, k)
+		r.Sticky = t.Draw(3, "sched.sticky")
+		for i := 0; i < k; i++ {
+			i := i
+			tasks[i] = r.Go(fmt.Sprintf("CK%d", i), func() {
+				s, err := d.CheckDebsig(keyring, askRole)
+				res[i] = ans{err == nil, s}
+			})
+		}
+		r.Sched()
+		r.Probe("one-package-checked-by-concurrent-callers")
+		for i := 0; i < k; i++ {
+			if taskTrouble(r, "C16", fault+"/shared", tasks[i]) {
+				return
+			}
+			if res[i].ok && mustFail {
+				r.Violate("C16/accepted-tampered-package", fault+"/checked-by-concurrent-callers", "caller %d of %d concurrent CheckDebsig calls on one loaded package accepted it (fault %s); a lone caller: accepted=%v", i+1, k, fault, lone.ok)
+				return
+			}
+			if res[i].ok != lone.ok || (res[i].ok && !sameEntity(res[i].signer, lone.signer)) {
+				r.Violate("C16/answer-depends-on-concurrent-callers", fault, "caller %d of %d concurrent CheckDebsig calls on one loaded package: accepted=%v, a lone caller before them: accepted=%v", i+1, k, res[i].ok, lone.ok)
+				return
+			}
+		}
+		d.Close()
+	}
 }
 
 func init() {
 	register(&Prop{
 		ID: "C16", Level: "fault_enumeration", Variant: "I", Design: "DESIGN.md §5 C16",
-		Rule: "Each run builds a package (25 codec pairs over none/gz/xz/bz2/zst), signs debian-binary ‖ control.* ‖ data.* with one of three fixture keys (two keyring candidates, one outsider) as _gpg<role> (role origin/maint/archive, signature member anywhere after debian-binary), picks a keyring composition, and in the fault-injecting two thirds applies one fault: substitution of one byte of one of the three signed members or of the signature member, insertion of a decoy control.tar / control.tar.gz / control.tar.zst / data.tar / data.tar.gz member before or after the genuine one, a request for a role that is not present, a keyring without the signer, or an empty keyring. The package is loaded and verified 1..4 times under tape-chosen member orders and disk profiles, reading the payload before or after verification. The thorough tier sweeps every fault position (every byte of the four members, every decoy variant) of each sampled package whose members total <= 6000 bytes.",
+		Rule: "Each run builds a package (25 codec pairs over none/gz/xz/bz2/zst), signs debian-binary ‖ control.* ‖ data.* with one of three fixture keys (two keyring candidates, one outsider) as _gpg<role> (role origin/maint/archive, signature member anywhere after debian-binary), picks a keyring composition, and in the fault-injecting two thirds applies one fault: substitution of one byte of one of the three signed members or of the signature member, insertion of a decoy control.tar / control.tar.gz / control.tar.zst / data.tar / data.tar.gz member before or after the genuine one, a request for a role that is not present, a keyring without the signer, an empty keyring, a signature made over only two of the three members, a decoy whose header read fails (for good or once), a decoy as torn last member, a failing disk range. A third of the runs also have 2..3 concurrent callers check ONE loaded package. The package is loaded and verified 1..4 times under tape-chosen member orders and disk profiles, reading the payload before or after verification. The thorough tier sweeps every fault position (every byte of the four members, every decoy variant) of each sampled package whose members total <= 6000 bytes.",
 		Run:  runC16, Sweep: true, SweepQuick: 0,
 		QuickRuns: 40000, QuickSecs: 45, ThoroughRuns: 4000, ThoroughSecs: 1200,
 		Components: map[string]interface{}{
@@ -461,5 +554,5 @@ func init() {
 		},
 		Assumptions: []string{"x/crypto/openpgp both makes and verifies the signatures: a bug common to both directions is invisible", "test keys are committed fixtures (key generation is not reproducible in Go); signing with a fixed signature time is byte-deterministic"},
 	})
-	propProbes["C16"] = []string{"tampered-twin-verified-concurrently", "debian-binary-with-further-lines", "loads-interleaved", "repeated-checks-on-one-package", "verification-succeeded", "payload-read-after-verification", "decoy-with-identical-name"}
+	propProbes["C16"] = []string{"one-package-checked-by-concurrent-callers", "decoy-whose-header-read-fails", "tampered-twin-verified-concurrently", "debian-binary-with-further-lines", "loads-interleaved", "repeated-checks-on-one-package", "verification-succeeded", "payload-read-after-verification", "decoy-with-identical-name"}
 }
